@@ -6,8 +6,9 @@ From Ice Require Import Gen.Consts Model.PrioSpec Model.TcpMux Model.TcpMuxSpec.
 Import ListNotations.
 Local Open Scope string_scope.
 
-Definition fcfg : cfg := mkCfg true true false true true.
-Definition fcfg_wbuf : cfg := mkCfg true true true true true.
+Definition fcfg : cfg := mkCfg true true false true true false.
+Definition fcfg_repaired : cfg := mkCfg true true false true false true.
+Definition fcfg_wbuf : cfg := mkCfg true true true true true false.
 
 (* D1a. RemoveConnByUfrag(u) immediately followed by GetConnByUfrag(u, same local IP): the watcher
    goroutine of the removed packet conn (createConn's go func: <-CloseChannel();
@@ -61,6 +62,17 @@ Proof.
          (rep 8191).
   vm_compute. auto.
 Qed.
+
+(* with the repair (cf_byid = true) the same schedules leave the new packet conn open and registered *)
+Example F_C15_repair_rm_get :
+  let s := run fcfg_repaired init [OGet 0 "u" false "10.0.0.1"; ORemove "u"; OGet 1 "u" false "10.0.0.1"; OWatcher 0] in
+  hnd s 1 = Some (1, false) /\ p_closed (pc s 1) = false /\ mp s "u" false "10.0.0.1" = Some 1.
+Proof. vm_compute. auto. Qed.
+
+Example F_C15_repair_hclose_get :
+  let s := run fcfg_repaired init [OGet 0 "u" false "10.0.0.1"; OHClose 0; OGet 1 "u" false "10.0.0.1"; OWatcher 0] in
+  hnd s 1 = Some (1, false) /\ p_closed (pc s 1) = false /\ mp s "u" false "10.0.0.1" = Some 1.
+Proof. vm_compute. auto. Qed.
 
 (* the monitor rejects what these histories show at the API (the observations below are the model's,
    and the implementation's: see the replays under findings/) *)
